@@ -12,6 +12,7 @@ import (
 	"fmt"
 	"os"
 	"regexp"
+	"runtime/debug"
 	"sort"
 	"strings"
 	"syscall"
@@ -354,6 +355,8 @@ func doRepeat(r *req) map[string]interface{} {
 }
 
 func main() {
+	// runaway recursion in fin-protoc should die quickly (and without a 1 GB stack): 256 MB is far beyond any legitimate depth
+	debug.SetMaxStack(256 << 20)
 	saved, err := syscall.Dup(1)
 	if err != nil {
 		panic(err)
